@@ -1,0 +1,14 @@
+//go:build verif
+// +build verif
+
+package client
+
+import "net"
+
+// VerifSetDial makes Dial use the given function instead of opening a UDP or
+// DTLS socket.
+//
+// Verification hook; compiled only with the "verif" build tag.
+func (c *Client) VerifSetDial(dial func() (net.Conn, error)) {
+	c.mockupDialFunc = dial
+}
